@@ -12,7 +12,8 @@ EXPLANATION = (
     "newlines, base64-decodes (same alphabet) and parses every chunk, hands them to share_recover, derives the key "
     "from the recovered message and the epoch string's bytes and returns base64 of exactly that 16-byte key; (R3) "
     "a recovery error or any undecodable chunk yields None; (R5) the delegated recovery admits a share to interpolation only on a successful distinct-x insertion and refuses iff fewer than threshold distinct points (C01.R4 re-run); (R4) no measurement, threshold, epoch or share text can panic create_share / group_shares (C09 engine run on both entry points).  NOT decided: equality with the core library's values for "
-    "concrete inputs beyond the delegation structure.")
+    "concrete inputs beyond the delegation structure."
+    "  Also (R6 = C02.R5) the recovery the wrapper delegates to returns a message only after re-checking the MAC against the rebuilt transcript.")
 ASSUMPTIONS = ["format!/fmt::Arguments template layout of the pinned nightly (length-prefixed literals, 0xC0 placeholders)"]
 TRUSTED = []
 
@@ -171,3 +172,11 @@ def run(ctx):
     from . import c01
     c01.recover_guards(ctx, "C17.R5")
     ctx.floor("C17.R5", 6)
+    # ---- R6: the recovery the wrapper delegates to returns a message only after re-checking the MAC (C02.R5 / C05.R1):
+    #          otherwise shares of different measurements or epochs yield Some(garbage key) instead of nothing
+    from . import c05
+    for r in ("adss::recover", "sta_rs::share_recover"):
+        e2, ret2, _, _ = ctx.root(r)
+        g = c05.weak_mac_gate(e2, ret2, 0, fidx(ctx, "adss::Share", "J"))
+        ctx.add("C17.R6", r + "#mac-gate", bool(g), "Ok of %s is not gated by a check of the share's MAC against the rebuilt transcript" % r, ctx.fn(r).loc)
+    ctx.floor("C17.R6", 2)
